@@ -37,6 +37,18 @@ def step (line : String) : String :=
     match maxsize, calls.mapM parseCall with
     | some ms, some cs => ";".intercalate ((runHistory id (lruPolicy ms) [] cs).map (showOut · ":"))
     | _, _ => "bad-op"
+  | "pct" :: fmt :: vals =>
+    -- `fmt % tuple(vals)` as the model reads it (`Datetime.percentFormat`); a value is `i<int>` or `s<token>`
+    let parseVal (v : String) : Option Val :=
+      if v.startsWith "i" then (v.drop 1).toString.toInt?.map Val.int
+      else if v.startsWith "s" then (decTok (v.drop 1).toString).map Val.str
+      else none
+    match decTok fmt, vals.mapM parseVal with
+    | some f, some vs =>
+      match percentFormat f vs with
+      | .ok t => "ok " ++ encTok t
+      | .error e => "err " ++ toString e
+    | _, _ => "bad-op"
   | ["civil", z] =>
     match z.toInt? with
     | some z =>
